@@ -5,7 +5,7 @@ import sym
 import json
 import c02, c07, consume
 
-CONFIGS_QUICK = ["F_all"]
+CONFIGS_QUICK = ["F_all", "F_nool"]  # every configuration whose cfg-gated code the property depends on
 CONFIGS_THOROUGH = ["F_all", "F_nool"]
 TECHNIQUE = 'static analysis: sibling agreement of the two XmlRead impls (call sequences per path), constructor configuration equality, chunk-independence summaries, owned/borrowed arm agreement of in-place trimming'
 EXPLANATION = (
